@@ -6,10 +6,9 @@ open MsVerif.Expr
 
 /-! ### fragment names -/
 
-theorem ofName_name (f : Frag) (h : f ≠ .rawPkH) : Frag.ofName f.name = some f := by
-  cases f <;> first | (exact absurd rfl h) | decide
-
-theorem ofName_rawPkH : Frag.ofName Frag.rawPkH.name = none := by decide
+/-- every name `fragment_name` returns is one the parser knows -/
+theorem ofName_name (f : Frag) : Frag.ofName f.name = some f := by
+  cases f <;> decide
 
 theorem name_no_colon (f : Frag) : f.name.contains ':' = false := by
   cases f <;> decide
@@ -85,19 +84,19 @@ theorem applyWrappers_eq (c : Codec) (rs : List W) (m : Ms) :
 
 /-- a non-wrapper node whose fragment parses to `m` -/
 theorem fromTreeI_core (c : Codec) (ws : List W) (f : Frag) (cs : List Tree) (m : Ms)
-    (hf : f ≠ .rawPkH) (hcore : parseCore c f cs (fromTreeL c cs) = .ok m) :
+    (hcore : parseCore c f cs (fromTreeL c cs) = .ok m) :
     fromTreeI c (core (ws.map W.char) f cs) = wrapAll c ws (.ok m) := by
   unfold core
   rw [fromTreeI]
   unfold parseNode
   cases ws with
   | nil =>
-    simp only [List.map_nil, joinName, List.isEmpty_nil, if_true, nameSeparated_name, ofName_name f hf, hcore]
+    simp only [List.map_nil, joinName, List.isEmpty_nil, if_true, nameSeparated_name, ofName_name f, hcore]
     rfl
   | cons w ws =>
     have hne : (w :: ws).map W.char ≠ [] := by simp
     rw [nameSeparated_join _ f (chars_no_colon _) hne]
-    simp only [ofName_name f hf, hcore]
+    simp only [ofName_name f, hcore]
     have he : ((w :: ws).map W.char).isEmpty = false := by simp
     simp only [he, Bool.false_eq_true, if_false]
     rw [← List.map_reverse, applyWrappers_eq, List.reverse_reverse]
